@@ -87,24 +87,26 @@ def handle (toks : List String) : Option String :=
   | "codec.run" :: cfg :: pol :: fuel :: ops => some <|
     match parseCfg? cfg, parseNat? fuel, ops.mapM parseCall? with
     | some cfg, some fuel, some calls =>
-      if pol == "asis" then "ok " ++ " ".intercalate (runTrace (toyCodec cfg .asIs fuel) .init calls)
-      else if pol == "dropfailed" then
-        "ok " ++ " ".intercalate (runTrace (toyCodec cfg .dropFailed fuel) .init calls)
+      if pol == "beforefix" then
+        "ok " ++ " ".intercalate (runTrace (toyCodec cfg .beforeFix fuel) .init calls)
+      else if pol == "fixed" then
+        "ok " ++ " ".intercalate (runTrace (toyCodec cfg .fixed fuel) .init calls)
       else "bad-op"
     | _, _, _ => "bad-op"
   | ["codec.toyenc", x] => some <|
     match parseHex? x with
     | some x => s!"ok {toHex (toyEnc x)}"
     | none => "bad-op"
-  /- `codec.lz4 <cap(dst)> <len(src)> <need> <fuel>`: compress/lz4/lz4.go Decode loop against a
-     block decoder that succeeds exactly when `len(dst) ≥ need` -/
+  /- `codec.lz4 <cap(dst)> <len(src)> <need> <fuel>`: compress/lz4/lz4.go Decode loop (as it
+     stands) against a block decoder that succeeds exactly when `len(dst) ≥ need`
+     (`need = 0-1` style: pass a huge need for a malformed source) -/
   | ["codec.lz4", dc, sl, need, fuel] => some <|
     match parseNat? dc, parseNat? sl, parseNat? need, parseNat? fuel with
     | some dc, some sl, some need, some fuel =>
       let L : Lz4Impl := ⟨fun _ n => if need ≤ n then .ok [] else .error .short⟩
-      -- = lz4Decode L fuel dc src for any src of length sl (avoids building the list)
-      match lz4Loop L [] fuel (reserveAtLeast dc (3 * sl)) with
-      | some (_, len) => s!"ok {len}"
+      match lz4Decode L fuel dc (List.replicate sl 0) with
+      | some (some _, len) => s!"ok {len}"
+      | some (none, len) => s!"ok err {len}"
       | none => "ok none"
     | _, _, _, _ => "bad-op"
   | _ => none
